@@ -109,7 +109,11 @@ func (s *Syncer) parallelSync(ctx context.Context, cs consensus.State, headers [
 	// process results in a separate goroutine
 	resps := make([]*Resp, len(reqs))
 	finishCh := make(chan []*Resp, len(reqs))
-	errCh := make(chan error, 1)
+	// room for the finishing goroutine's result *and* one "all peers failed"
+	// queued by the ticker: if the context is cancelled while the latter is
+	// still unread, the finishing goroutine must not block on its send, or the
+	// wg.Wait() below never returns
+	errCh := make(chan error, 2)
 	var wg sync.WaitGroup
 	wg.Add(1)
 	go func() {
